@@ -546,12 +546,9 @@ func TestC20RacePairs(t *testing.T) {
 	defer rep.Finish(t)
 	scs := c20Scenarios()
 	rng := newRand("c20racepairs")
-	var ctr atomic.Int64
-	samlidp.VerifHook = func(ev, res string, mu *sync.RWMutex) {
-		if ctr.Add(1)%2 == 0 {
-			runtime.Gosched()
-		}
-	}
+	// the hook only yields: it must not touch anything shared (an atomic counter here would be a
+	// synchronisation event for the race detector and order the very accesses it is looking at)
+	samlidp.VerifHook = func(ev, res string, mu *sync.RWMutex) { runtime.Gosched() }
 	defer func() { samlidp.VerifHook = nil }()
 	type round struct{ idx []int }
 	var rounds []round
